@@ -86,7 +86,7 @@ CHECKS = {
                 note="class representatives; edge characters on which riti's tables and the Unicode chart differ are non-normative; TLC, harness executor, rustc trusted"),
     "C13": dict(category=MC, design_ref="DESIGN.md 5 C13",
                 technique="TLC bounded model checking of ImplReph against PropRephSet (syllable grammar) + replay of every reph-ending history through the real engine",
-                text="TLC enumerates all histories ending in the reph key to depth 6 (quick) / 7 (thorough) over the 12 values the reph scan distinguishes x 16 settings, and to depth 4 / 5 over a class sweep "
+                text="TLC enumerates all histories ending in the reph key to depth 5 (quick) / 6 (thorough) over the 12 values the reph scan distinguishes x 16 settings, and to depth 4 / 5 over a class sweep "
                      "(all ten vowel signs, anusvara, visarga, khanda-ta, digit: 25 values), "
                      "checks conservation for every reachable text and exact placement for every text matching the syllable grammar; every history ending in "
                      "the reph key is replayed in the real engine and the pre-edit text compared after each event; the ranges include the old vowel-sign order (sign waiting / sign placed before the reph arrives)",
